@@ -8,7 +8,7 @@ export PYSPARK_PYTHON=/venv/bin/python PYSPARK_DRIVER_PYTHON=/venv/bin/python
 MODE="${1:-fast}"
 OUT="${2:-/tmp/pandera-baseline}"
 rm -rf "$OUT"; mkdir -p "$OUT"
-cd /repo || exit 2
+cd "${REPO_DIR:-/repo}" || exit 2
 if [ "$MODE" = full ]; then
   /venv/bin/python -m pytest -ra -q -p no:cacheprovider --timeout=900 --continue-on-collection-errors --junitxml="$OUT/all.xml" >"$OUT/log" 2>&1
 else
